@@ -334,7 +334,7 @@ def convert_resize_1x1_to_add(op):
     quantization.zero_point = 0
     op.inputs[1] = op.inputs[0]
     op.set_input_tensor(create_const_tensor(name, shape, dtype, values, quantization=quantization), 0)
-    op.set_ifm_ofm_shapes()
+    op.set_ifm_shapes()
     DebugDatabase.add_optimised(op, op)
 
     return op
@@ -428,6 +428,7 @@ def convert_resizenn_ac_to_depthwise_conv(op, upscale_factor):
 def convert_resize_to_upscale_and_average_pool(op):
     pre_op = op
     outputs = op.outputs
+    ofm_shapes = list(op.ofm_shapes)
     dtype = op.ifm.dtype
 
     op.attrs.update({"strides": (1, 1, 1, 1), "ksize": (1, 1, 1, 1)})
@@ -492,6 +493,9 @@ def convert_resize_to_upscale_and_average_pool(op):
     scaled_op.outputs = outputs
     scaled_op.outputs[0].ops = [scaled_op]
     scaled_op.set_ifm_ofm_shapes()
+    # the last operator writes the OFM as the resize operator saw it (the tensor has the consumers' shape when a Reshape
+    # behind the resize has been bypassed)
+    scaled_op.ofm_shapes = ofm_shapes
     DebugDatabase.add_optimised(op, scaled_op)
 
     return op
@@ -1046,8 +1050,8 @@ def convert_avg_pool_to_conv2d(op: Operation, arch, nng) -> Operation:
     )
     op.weights.values = np.reshape(op.inputs[1].values, shape)
 
-    # Set IFM/OFM shapes after changing op type
-    op.set_ifm_ofm_shapes()
+    # Set IFM shapes after changing op type
+    op.set_ifm_shapes()
     return op
 
 
@@ -1277,6 +1281,7 @@ def fixup_relus_with_differing_ifm_ofm_scaling(op: Operation, arch, nng) -> Oper
             relu_fused_op.add_input_tensor(ifm)
             relu_fused_op.set_output_tensor(ofm)
             relu_fused_op.set_ifm_ofm_shapes()
+            relu_fused_op.ofm_shapes = list(op.ofm_shapes)
             op = relu_fused_op
     return op
 
@@ -1502,7 +1507,7 @@ def convert_mul_max_to_abs_or_lrelu(op: Operation, arch, nng) -> Operation:
         op.name = op.name.replace("Maximum", new_op.name)
         op.outputs[0].name = op.outputs[0].name.replace("Maximum", new_op.name)
         op.inputs = [shared_in]
-        op.set_ifm_ofm_shapes()
+        op.set_ifm_shapes()
 
         # Record optimisation in debug database
         DebugDatabase.add_optimised(op, op)
@@ -1910,7 +1915,7 @@ def replace_pad_by_hw_pad(op: Operation, arch, nng) -> Operation:
         # Adjust the padding attributes of the convolution operator
         op.attrs["padding"] = Padding.EXPLICIT
         op.attrs["explicit_padding"] = (top, left, bottom, right)
-        op.set_ifm_ofm_shapes()
+        op.set_ifm_shapes()
         DebugDatabase.add_optimised(op, op)
 
     return op
@@ -2234,7 +2239,7 @@ def convert_squared_difference(op, arch, nng):
         op.type = Op.Mul
         # Use explicit scaling for the shift (multiplier not actually used for int32, but value can not be empty)
         op.explicit_scaling = ExplicitScaling(False, [output_shift], [output_multiplier])
-        op.set_ifm_ofm_shapes()
+        op.set_ifm_shapes()
         DebugDatabase.add_optimised(op, op)
 
     return op
